@@ -34,4 +34,22 @@ mod verif_c13_wit {
         assert!(!r.routes.is_empty() && r.routes.len() <= 2, "between one and k routes");
         assert_eq!(r.routes[0].iter().map(|e| e.edge_id.0).collect::<Vec<_>>(), vec![7], "the first route is the least-cost route");
     }
+
+    /// Yen's, k = 2, on the box world, query 0 -> 2 whose least-cost route has exactly TWO edges (0->3, 3->2).
+    /// Property (C13 "always terminates", C12 "never runs without bound"): the call returns.
+    #[test]
+    fn c13_wit_yen_two_edge_route_returns() {
+        let (tx, rx) = std::sync::mpsc::channel();
+        std::thread::spawn(move || {
+            let si = W::box_instance();
+            let q = serde_json::json!({});
+            let query = KspQuery { source: VertexId(0), target: VertexId(2), user_query: &q, k: 2 };
+            let r = run(&query, &KspTerminationCriteria::Exact, &RouteSimilarityFunction::AcceptAll, &si, &SearchAlgorithm::Dijkstra);
+            let _ = tx.send(r.map(|x| x.routes.len()).map_err(|e| e.to_string()));
+        });
+        let got = rx.recv_timeout(std::time::Duration::from_secs(20))
+            .expect("yens_algorithm::run did not return within 20 s (two-edge least-cost route, k = 2): no spur index, no candidate, the while loop makes no progress");
+        let n = got.expect("an answerable query is not turned into an error");
+        assert!(n >= 1 && n <= 2, "between one and k routes");
+    }
 }
